@@ -883,7 +883,7 @@ func (c *Ctx) funcxExtremes(note func(k, bad, undec string)) {
 
 func init() {
 	register(&Rule{ID: "FUNC.model", Floor: 5,
-		Doc: "the default function table evaluated abstractly (NewDefaultFunctionCollection, FindByName in three letter cases, Calculate with the type-unsafe operations): the 37 names and nothing else; per function and argument count 0..9 a result exactly for the statement's counts, never nil-without-error or both; host functions and constants as symbolic expressions of the converted argument; Min/Max/Sum/If/Choose/Contains/Abs/Empty/Null/Array/TimeSpan/Date on constants against their meaning",
+		Doc: "the default function table evaluated abstractly (NewDefaultFunctionCollection, FindByName in three letter cases, Calculate with the type-unsafe operations): the 37 names and nothing else; per function and argument count 0..9 a result exactly for the statement's counts, never nil-without-error or both; host functions and constants as symbolic expressions of the converted argument; Min/Max/Sum/If/Choose/Contains/Abs/Empty/Null/Array/TimeSpan/Date on constants against their meaning; every function with an argument of every variant type in every position under both managers (result xor error; what the manager refuses to convert is an error); Min and Max as mirror images over lists with Null arguments in every position",
 		Run: func(c *Ctx) []*Obligation {
 			o := newObl("FUNC.model")
 			res := c.funcxRun()
